@@ -13,6 +13,8 @@ def cconsts():
     consts(); return CC
 
 OK, INPROGRESS, MAXNUM = 0, -5, -7
+# every other result code of espconn.h, the neighbours of the two transient codes, and the ends of the sint8 range
+HARD_CODES = [-1, -3, -4, -6, -8, -9, -10, -11, -12, -14, -15, -28, -61, 1, 5, 7, -128, 127]
 
 def frame(rr, call, payload, ver=None):
     c = consts()
@@ -63,7 +65,9 @@ class C02(F.PropCheck):
     rule = ('1-12 calls (generic srpc_async_call with allowed/unknown ids and the 21 typed device->server entry points; payload 0, small, '
             '256-byte frame boundaries, 477/478 (500-byte send buffer +-1), 719..729 after a 1536 (2048-byte out buffer +-5), 1531..1537, random) '
             'x bursts without iterate (2-slot queue) x ITER events with 3 scripted espconn_sent results from {0, INPROGRESS, MAXNUM} '
-            '(runs of refusals) and, in ~12% of cases, hard errors; most cases end with enough all-OK iterations to drain; '
+            '(runs of refusals) and, in ~12% of cases, hard errors (every espconn.h code, neighbours of -5/-7, sint8 ends); most cases end with '
+            'enough all-OK iterations to drain; 7% slow-fill histories (up to 23 small frames against a refusing network: every fill level of '
+            'the 500-byte retry buffer incl. exactly 500 and one frame beyond); 6% start the id counter near 2^32 or 2^31; '
             'non-trivial = at least one WIRE output; distinct by sha256 of the event text')
 
     def build_impl(self):
@@ -120,20 +124,41 @@ class C02(F.PropCheck):
         if mode == 'mixed': return [rng.choice([OK, OK, INPROGRESS, MAXNUM]) for _ in range(3)]
         # hard
         rs = [rng.choice([OK, INPROGRESS, MAXNUM]) for _ in range(3)]
-        rs[rng.randrange(3)] = rng.choice([-1, -11, -12, -8, -4, 1, -128, 127, -6])
+        rs[rng.randrange(3)] = rng.choice(HARD_CODES)
         return rs
+
+    def gen_slow_fill(self, rng):
+        """many small frames, each handed to a network layer that keeps refusing: the retry buffer fills in small steps up to
+        exactly SEND_BUFFER_SIZE (and one frame beyond), then drains; exercises every fill level of esp_send_buffer_len"""
+        c = consts(); cc = cconsts(); HT = c['SDP_SIZE'] - c['MAX_DATA_SIZE'] + c['TAG_SIZE']
+        fl = rng.choice([25, 50, 100, 125, 250, 23, 24, 26, 167])          # 25/50/100/125/250 divide 500 exactly
+        k = c['SEND_BUFFER'] // fl + rng.choice([-1, 0, 1, 2])
+        evs = []
+        for j in range(max(1, k)):
+            n = fl - HT if rng.random() < 0.85 else max(0, fl - HT + rng.choice([-1, 1]))
+            evs.append(('CALL', [rng.choice(cc['ALLOWED_CALLS'])], bytes(rng.getrandbits(8) for _ in range(n))))
+            evs.append(('ITER', [rng.choice([INPROGRESS, MAXNUM]) for _ in range(3)], b''))
+            if rng.random() < 0.08: evs.append(('ITER', [rng.choice([INPROGRESS, MAXNUM]) for _ in range(3)], b''))
+        for _ in range(rng.choice([0, 6, 6, 6])): evs.append(('ITER', [OK, OK, OK], b''))
+        if rng.random() < 0.5:       # traffic after the buffer has drained (or has overflowed)
+            evs.append(('CALL', [rng.choice(cc['ALLOWED_CALLS'])], bytes(rng.getrandbits(8) for _ in range(rng.randrange(0, 300)))))
+            for _ in range(6): evs.append(('ITER', [OK, OK, OK], b''))
+        return evs
 
     def gen_cases(self, rng, n, tier):
         c = consts(); cases = []
         for i in range(n):
             evs = []; tags = set()
+            if rng.random() < 0.07:
+                cases.append(F.Case('%s%d' % (tier[0], i), self.gen_slow_fill(rng), ['slow-fill', 'generic'])); continue
             ncalls = rng.choice([1, 2, 2, 3, 3, 4, 5, 6, 8, 12])
             net = rng.choice(['ok', 'ok', 'mixed', 'mixed', 'refuse-runs', 'hard'] if rng.random() < 0.75 else ['hard', 'refuse-runs'])
             if net == 'hard' and rng.random() < 0.4: net = 'mixed'
             iterp = rng.choice([0.0, 0.5, 1.0, 2.0, 4.0])
             prev = None; refusing = 0
             if rng.random() < 0.06:      # start close to the 32-bit wrap of the request-id counter
-                evs.append(('BOOTRR', [2**32 - 1 - rng.randrange(0, ncalls + 2)], b'')); tags.add('rr-wrap')
+                base = rng.choice([2**32, 2**32, 2**31])     # 32-bit wrap (0 is skipped) / sign bit of the int return value
+                evs.append(('BOOTRR', [base - 1 - rng.randrange(0, ncalls + 2)], b'')); tags.add('rr-wrap')
             for j in range(ncalls):
                 e, ln, kind = self.gen_call(rng, prev); evs.append(e); tags.add(kind)
                 if ln is not None: prev = ln
@@ -173,10 +198,12 @@ class C02(F.PropCheck):
             if rr != 0:
                 accepted.append((rr, cid, payload)); sure = sure and s
         # request ids
-        prev = 0; wrapcase = bool(case.evs) and case.evs[0][0] == 'BOOTRR'     # the 32-bit counter may wrap only there
+        # (fewer than 2^32 calls per case: "increasing" is read along the 32-bit counter, which starts at `boot` and may wrap once)
+        boot = case.evs[0][1][0] if case.evs and case.evs[0][0] == 'BOOTRR' else 0
+        prev = None
         for (rr, cid, payload) in accepted:
-            if rr == 0 or (rr <= prev and not wrapcase):
-                v.append('request id %d issued after %d: ids must be non-zero and strictly increasing' % (rr, prev)); break
+            if rr == 0 or (prev is not None and (rr - boot - 1) % 2**32 <= (prev - boot - 1) % 2**32):
+                v.append('request id %d issued after %s (counter started at %d): ids must be non-zero and strictly increasing' % (rr, prev, boot)); break
             prev = rr
         if not sure: return v     # the python table expected the typed wrapper to refuse: leave the content to the model comparison
         stream = b''.join(frame(rr, cid, payload) for (rr, cid, payload) in accepted)
@@ -203,6 +230,31 @@ class C02(F.PropCheck):
                     if pos > len(wire): lost = rr; break
                 v.append('accepted call rr=%s was not transmitted (%d of %d bytes sent) although %d all-OK iterations followed and no overflow, '
                          'hard error or restart was reported' % (lost, len(wire), len(stream), tail))
+        # "Send buffer size exceeded" is the report of one chunk (<= SRPC_BUFFER_SIZE bytes) that did not fit behind the bytes
+        # waiting in the 500-byte retry buffer: nothing else may be missing, and the chunk must really not have fitted
+        nsbe = kinds.count('SENDBUFEXCEEDED')
+        if not v and nsbe and 'HARDERR' not in kinds and not restarted:
+            tail = 0
+            for e in reversed(case.evs):
+                if e[0] == 'ITER' and all(r == 0 for r in e[1]): tail += 1
+                else: break
+            if tail >= len(stream) // 256 + len(accepted) + 3:
+                c = consts()
+                if len(stream) - len(wire) > nsbe * c['SRPC_BUFFER']:
+                    v.append('%d bytes of accepted calls never reached the TCP layer but only %d send-buffer overflow(s) of at most %d bytes '
+                             'were reported (%d all-OK iterations followed)' % (len(stream) - len(wire), nsbe, c['SRPC_BUFFER'], tail))
+                elif nsbe == 1:
+                    h = self.chunk_offsets(case, rets)
+                    wbefore = 0
+                    for o in outs:
+                        if o[0] == 'SENDBUFEXCEEDED': break
+                        if o[0] == 'WIRE': wbefore += len(o[2])
+                    cand = [j for j in range(len(h) - 1) if h[j] >= wbefore and stream[:h[j]] + stream[h[j + 1]:] == wire] if h else []
+                    if cand and all(h[j + 1] - wbefore <= c['SEND_BUFFER'] for j in cand):
+                        j = cand[0]
+                        v.append('"Send buffer size exceeded" reported and the %d-byte chunk at stream offset %d dropped although only %d bytes '
+                                 'were waiting in the retry buffer (%d + %d <= SEND_BUFFER_SIZE %d): loss without overflow'
+                                 % (h[j + 1] - h[j], h[j], h[j] - wbefore, h[j] - wbefore, h[j + 1] - h[j], c['SEND_BUFFER']))
         # a restart is a legitimate report only of an out-buffer overflow (C02_overflow_exact): accepted calls that are
         # dropped by a restart although every queued frame fitted below BUFFER_MAX_SIZE are lost without cause
         if not v and restarted and not lossy and wire != stream and not self.overflow_before_restart(case, rets):
@@ -234,6 +286,25 @@ class C02(F.PropCheck):
                     outb += f
                 outb -= min(c['SRPC_BUFFER'], outb)
         return False
+
+    def chunk_offsets(self, case, rets):
+        """stream offsets [h0=0, h1, ...] of the chunks srpc_iterate hands to data_write, one per ITER with a non-empty out buffer
+        (size bookkeeping as in overflow_before_restart; None when a frame does not fit, i.e. a restart is due)"""
+        c = consts(); q = []; outb = 0; ncall = 0; h = [0]
+        for e in case.evs:
+            if e[0] in ('CALL', 'DS'):
+                if ncall >= len(rets): break
+                rr = rets[ncall]; ncall += 1
+                if rr != 0:
+                    cid, payload, _ = ev_call(e); q.append(len(frame(rr, cid, payload)))
+            elif e[0] == 'ITER':
+                if q:
+                    f = q.pop(0)
+                    if outb + f >= c['BUFFER_MAX']: return None
+                    outb += f
+                k = min(c['SRPC_BUFFER'], outb)
+                if k: h.append(h[-1] + k); outb -= k
+        return h
 
     def nontrivial(self, case, io): return any(o[0] == 'WIRE' for o in io[1])
 
